@@ -49,7 +49,10 @@ def extra_for(code, tag, rng):
     elif r < 0.5:
         e += "Record-Route: <sip:p1.example.org;lr>\r\nRecord-Route: <sip:p2.example.org;lr>\r\nRecord-Route: <sip:p3.example.org;lr>\r\n"
     if 101 <= code <= 199 and rng.random() < 0.3:
-        e += "Require: 100rel\r\nRSeq: %d\r\n" % rng.randrange(1, 1000)
+        # 100rel may be any of several required extensions, in one Require line or in a line of its own
+        req = rng.choice(["Require: 100rel\r\n", "Require: 100rel\r\n", "Require: precondition, 100rel\r\n", "Require: precondition\r\nRequire: 100rel\r\n",
+                          "Require: 100rel, precondition\r\n", "Require: a,b , 100rel\r\n"])
+        e += req + "RSeq: %d\r\n" % rng.randrange(1, 1000)
     if 200 <= code <= 299 and rng.random() < 0.4:
         e += "Supported: timer\r\nSession-Expires: 3600;refresher=uas\r\n"
     return e
@@ -286,6 +289,20 @@ def oracle(case, impl):
             return ["the 2xx (Session-Expires %d, this side refreshes) arrived at %d ms %s; the session reports a refresh due at %r, expected %d" % (
                 se, t2, "after a 1xx with its To-tag" if any(h[1] == "a" and int(h[0]) < 200 for h in hist) else "as the first response with its To-tag",
                 due[:1], t2 + (se - 10) * 1000)]
+    # a provisional response that requires 100rel is reported with its RSeq (the application has to PRACK it), wherever 100rel stands
+    # among the required extensions
+    for i, st in enumerate([x for x in case[4].split(",") if ":resp:" in x]):
+        a = st.split(":")
+        if len(a) >= 5 and 101 <= int(a[2]) <= 199 and a[3] != "-" and a[4]:
+            extra = bytes.fromhex(a[4]).decode("utf-8", "replace")
+            m = re.search(r"RSeq: (\d+)", extra)
+            tags = [t.strip() for l in extra.split("\r\n") if l.lower().startswith("require:") for t in l.split(":", 1)[1].split(",")]
+            if m and "100rel" in tags:
+                t = int(a[0])
+                seen = [n for n, tt in _tokens(impl) if tt == t and (n.startswith("early:%s:" % a[3]) or n.startswith("early-prov:%s:" % a[3]))]
+                if seen and not any(n.endswith(":" + m.group(1)) for n in seen):
+                    return ["the reliable provisional response %s (To-tag %s, Require %r, RSeq %s) was reported as %r: without its RSeq the application cannot acknowledge it" % (
+                        a[2], a[3], tags, m.group(1), seen)]
     # session dialogs: identifiers from that response
     inv = re.search(r"W:INVITE_[^ ]*", impl)
     for m in re.finditer(r"(?:session|early-session):(\w+):cid=([^/]*)/ltag=([^/]*)/ptag=([^/]*)/target=([^/]*)/routes=(\S*?)@\d+", impl):
